@@ -349,7 +349,7 @@ fn huge_span(rep: &mut Report) {
                     Err(msg) => Some((format!("C15/panic/{}", panic_class(&msg)), format!("panicked: {}", msg))),
                 };
                 if let Some((sig, what)) = bad {
-                    rep.violation(format!("{}/{}", sig.replacen("C15/", "C15/huge-span/", 1), sf.name()), format!("{} holding {:?}: {}", label, set, what), json!({"scale": sf, "backlog": backlog, "values": set}));
+                    rep.violation(sig.replacen("C15/", "C15/huge-span/", 1), format!("{} holding {:?}: {}", label, set, what), json!({"scale": sf, "backlog": backlog, "values": set}));
                 }
             }
         }
